@@ -19,5 +19,7 @@ class GFA2ToGFA1:
               self.field_to_s("sequence", tag = False)]
     a.append(gfapy.Field._to_gfa_tag(self.slen, slen_tag, datatype = "i"))
     for fn in self.tagnames:
-      a.append(self.field_to_s(fn, tag = True))
+      if fn != slen_tag:
+        # (the tag which receives slen is not written twice)
+        a.append(self.field_to_s(fn, tag = True))
     return a
